@@ -1,6 +1,7 @@
 import PikaVerif.Model.BulkPlan
 import PikaVerif.Model.Bulk
 import Driver.Util
+import Driver.BulkCDrv
 /-!
 Driver for the bulk arithmetic / live runs (C11).
 
@@ -243,6 +244,11 @@ def runLive (c : Case) (ls : List Line) : Res := Id.run do
         if decs != W then r := r.viol s!"{decs} decrements of the join counter initialised to {W}"
         if lasts != 1 then r := r.viol s!"{lasts} participants saw the join counter reach 0"
     | _, _ => pure ()
+  -- ---- composed model (C11c): plan from the generated arithmetic, index-queue loads / CASes,
+  --      index loop with the value pack, exception slot, completion -----------------------------
+  if n ≥ 0 then
+    for m in BulkCDrv.replay S w.toNat n.toNat ls calls do
+      r := r.fail m
   -- ---- independent monitors on the observable summary ---------------------------------------
   let what := s!"bulk<{shapeName code}>(n={n}) on {w} workers"
   if vsig + esig != 1 then r := r.viol s!"{what}: receiver signalled {vsig} value(s) and {esig} error(s)"
